@@ -140,7 +140,7 @@ def _close(r1, r2):
     if f1 is None or f2 is None or len(f1) != len(f2):
         return f1 is None and f2 is None
     for x, y in zip(f1, f2):
-        if x != x and y != y:
+        if (x != x and y != y) or x == y:          # nan/nan, and equal infinities (inf - inf is nan)
             continue
         if not abs(x - y) <= 1e-12 + 1e-9 * max(abs(x), abs(y)):
             return False
